@@ -19,7 +19,8 @@ What is generated besides the functions (all of it READ from the source):
 The subset of Python (general idioms, nothing keyed to today's text; FAIL CLOSED: any other construct makes the
 definition `<name>_UNTRANSLATABLE : unit := tt`, and so does every function that calls it, so that the bridging
 lemma stops type-checking):
-  values      locals, None/bool/int/str constants, [a, b] and {} displays, f"..{e}.." (str operands), x.attr
+  values      locals, None/bool/int/str constants, [a, b] and {} displays, f"..{e}.." (a str operand, or a class
+              of the package whose class statement customises nothing: "<class 'module.Name'>"), x.attr
               (attribute of an object), o.m() (a parameterless query of an object: the attribute "m()"),
               getattr(o, NAME[, d]) for a string constant NAME (also one imported from the package),
               x[i], x[a:b], + - unary -, len(), `a or b` / `a and b`, conditional expressions, comparisons,
@@ -192,6 +193,7 @@ class Gen:
         self.table_rows = None
         self.table_error = None
         self.extra_classes = []      # (module, name) mentioned by the functions, outside the Field family
+        self.value_classes = []      # (module, name) of the classes the functions use as values
         self.enum_defs = {}
         self.table_needed = False
 
@@ -263,6 +265,27 @@ class Gen:
     def is_abc_mapping(self, name):
         imp = self.imports.get(name)
         return bool(imp) and imp[0] == "from" and (imp[1], imp[2]) in ABC_MAPPING and not self.rebound(name)
+
+    # ---- classes used as values: what str(cls) is
+    def value_class(self, key):
+        if key not in self.value_classes:
+            self.value_classes.append(key)
+
+    def class_reprs(self):
+        """(class name, "<class 'module.Name'>") for every class used as a value whose class statement has no
+        bases, no metaclass and no __str__ / __repr__ / nested class (so that type.__repr__ applies)"""
+        rows, seen = [], {}
+        for key in self.value_classes:
+            if seen.setdefault(key[1], key) != key:
+                raise Unsupported("two classes named %s used as values" % key[1])
+            cd = self.repo.classdef(*key)
+            if cd is None or cd.bases or cd.keywords or cd.decorator_list:
+                continue
+            if any(isinstance(n, (ast.FunctionDef, ast.AsyncFunctionDef, ast.ClassDef, ast.Assign, ast.AnnAssign))
+                   for n in cd.body):
+                continue
+            rows.append("(%s, %s)" % (E.pstr(key[1]), E.pstr("<class '%s.%s'>" % key)))
+        return rows
 
     # ---- the class table
     def need_class(self, key):
@@ -531,6 +554,7 @@ class FnTr:
             if self.gen.is_global(e.id):
                 key = self.gen.class_key(e.id)
                 if key is not None:
+                    self.gen.value_class(key)
                     return [], "(ref %s)" % E.pstr(key[1]), False
                 c = self.gen.string_const(e.id)
                 if c is not None:
@@ -570,7 +594,7 @@ class FnTr:
                 elif isinstance(x, ast.FormattedValue) and x.conversion == -1 and x.format_spec is None:
                     b, a = self.val(x.value)
                     s = self.fresh("s")
-                    binds += b + [(s, "PyOpsDerive.py_format %s" % a)]
+                    binds += b + [(s, "m_format mappers_class_reprs %s" % a)]
                     parts.append(s)
                 else:
                     raise Unsupported("f-string part %s" % ast.dump(x)[:60])
@@ -1214,6 +1238,15 @@ def render():
     except Unsupported as e:
         lines.append("(* NOT TRANSLATABLE: %s *)\nDefinition mappers_class_table_UNTRANSLATABLE : unit := tt.\n" % _comment(str(e)))
         status["mappers_class_table"] = "unsupported: %s" % e
+    try:
+        rows = gen.class_reprs()
+        lines.append("(* str(cls) for the classes the functions below use as values and whose class statement customises\n"
+                     "   nothing (no bases, no metaclass, an empty body): \"<class 'module.Name'>\" *)\n"
+                     "Definition mappers_class_reprs : list (pystr * pystr) :=\n  [%s].\n" % ";\n   ".join(rows))
+        status["mappers_class_reprs"] = "ok"
+    except Unsupported as e:
+        lines.append("(* NOT TRANSLATABLE: %s *)\nDefinition mappers_class_reprs_UNTRANSLATABLE : unit := tt.\n" % _comment(str(e)))
+        status["mappers_class_reprs"] = "unsupported: %s" % e
     # the enum class `mappers` is part of what the property names: always emitted
     try:
         key = gen.class_key("mappers")
